@@ -242,8 +242,9 @@ Lemma Rsum_map_nonneg {A} (g : A -> R) l : (forall x, 0 <= g x) -> 0 <= Rsum (ma
 Proof. intros H. induction l as [|x l IH]; cbn [map Rsum]; [lra|]. pose proof (H x). lra. Qed.
 
 (** the constants: Crow it * 2^-24 bounds  Sum_j cw_it(w_j, wh_j)  *)
-Definition Crow (it : Z) : R :=
-  if (it =? 1)%Z then 1001 / 1000 else if (it =? 2)%Z then 32 / 10 else if (it =? 3)%Z then 82 / 10 else 126 / 10.
+Definition CrowQ (it : Z) : Q :=
+  if (it =? 1)%Z then 1001 # 1000 else if (it =? 2)%Z then 32 # 10 else if (it =? 3)%Z then 82 # 10 else 126 # 10.
+Definition Crow (it : Z) : R := Q2R (CrowQ it).
 
 Lemma Rsum_combine_cw (k : nat) (ws whs : list R) :
   length ws = length whs ->
@@ -316,23 +317,27 @@ Proof.
   set (X := Rsum (map (fun vw => Rabs (fst vw - snd vw)) (combine whs ws))) in *.
   set (Y := Rsum (map Rabs ws)) in *.
   pose proof u32_pos as Up. pose proof u32_val as Uv.
-  destruct Hv as [H|[H|[H|H]]]; subst it; unfold Crow, Bsum, Lsum in *; cbn [Z.eqb Pos.eqb] in *;
+  destruct Hv as [H|[H|[H|H]]]; subst it; unfold Crow, CrowQ, Bsum, Lsum in *; cbn [Z.eqb Pos.eqb] in *;
     change (Z.to_nat 1) with 1%nat; change (Z.to_nat 2) with 2%nat;
     change (Z.to_nat 3) with 3%nat; change (Z.to_nat 4) with 4%nat.
   - pose proof pow1u32_1 as G. fold (g32 1) in G. pose proof (g32_nonneg 1).
     replace (Q2R 0) with 0 in E1 by (unfold Q2R; cbn; lra).
     replace (Q2R 1) with 1 in E2 by (unfold Q2R; cbn; lra).
+    replace (Q2R (1001 # 1000)) with (1001 / 1000) by (unfold Q2R; cbn; lra).
     apply (crow_arith X Y (g32 1) u32 0 1 1); lra.
   - pose proof pow1u32_2 as G. fold (g32 2) in G. pose proof (g32_nonneg 2).
     replace (Q2R (9 # 8)) with (9 / 8) in E1 by (unfold Q2R; cbn; lra).
     replace (Q2R (33 # 32)) with (33 / 32) in E2 by (unfold Q2R; cbn; lra).
+    replace (Q2R (32 # 10)) with (32 / 10) by (unfold Q2R; cbn; lra).
     apply (crow_arith X Y (g32 2) u32 (9 / 8) (33 / 32) (2000001 / 1000000)); lra.
   - pose proof pow1u32_3 as G. fold (g32 3) in G. pose proof (g32_nonneg 3).
     replace (Q2R (17 # 4)) with (17 / 4) in E1 by (unfold Q2R; cbn; lra).
     replace (Q2R (21 # 16)) with (21 / 16) in E2 by (unfold Q2R; cbn; lra).
+    replace (Q2R (82 # 10)) with (82 / 10) by (unfold Q2R; cbn; lra).
     apply (crow_arith X Y (g32 3) u32 (17 / 4) (21 / 16) (3000001 / 1000000)); lra.
   - pose proof pow1u32_4 as G. fold (g32 4) in G. pose proof (g32_nonneg 4).
     replace (Q2R (29 # 4)) with (29 / 4) in E1 by (unfold Q2R; cbn; lra).
     replace (Q2R (21 # 16)) with (21 / 16) in E2 by (unfold Q2R; cbn; lra).
+    replace (Q2R (126 # 10)) with (126 / 10) by (unfold Q2R; cbn; lra).
     apply (crow_arith X Y (g32 4) u32 (29 / 4) (21 / 16) (4000001 / 1000000)); lra.
 Qed.
